@@ -231,6 +231,12 @@ class ExprMixin:
 
     def ev_ifexp(self, n, st, old):
         saved = st.clone()
+        if not self.spec_mode and not (self._pure_bool(n.body) and self._pure_bool(n.orelse)):
+            # branches with calls may have effects: fork instead of merging with ite
+            t = self.truth(self.ev(n.test, st, old))
+            if self.branch(t, st):
+                return self.ev(n.body, st, old)
+            return self.ev(n.orelse, st, old)
         self.nofork += 1
         try:
             t = self.truth(self.ev(n.test, st, old))
